@@ -297,7 +297,6 @@ Proof.
     apply take_bytes_spec in E as [E EL]. apply take_bytes_spec in E2 as [E2 _]. subst r r2.
     apply orb_false_iff in Ell as [L1 L2]. apply N.eqb_neq in L1. apply N.ltb_ge in L2.
     repeat split; cbn [length app]; try lia; eauto.
-    now rewrite <- app_assoc.
 Qed.
 
 (* the content length is what the header says, and the header is the only one cryptobyte accepts for it *)
@@ -328,9 +327,9 @@ Proof.
     pose proof (be_dec_bound lbs Hlbs) as Hbound.
     set (v := be_dec lbs) in *. rewrite E2. unfold hdr_enc, len_enc, max_content.
     assert (Hcases : lb - 128 = 1 \/ lb - 128 = 2 \/ lb - 128 = 3 \/ lb - 128 = 4) by lia.
-    split; [|lia].
     destruct Hcases as [K|[K|[K|K]]]; rewrite K in *;
-      assert (HL : length lbs = N.to_nat (lb - 128)) by lia; rewrite K in HL; rewrite HL in *.
+      assert (HL : length lbs = N.to_nat (lb - 128)) by lia; rewrite K in HL; rewrite HL in *;
+      (split; [|cbn in Hbound; lia]).
     + change (256 ^ (1 - 1)) with 1 in G2. change (256 ^ N.of_nat (N.to_nat 1)) with 256 in Hbound.
       replace (v <? 128) with false by (symmetry; apply N.ltb_ge; lia).
       replace (v <? 256) with true by (symmetry; apply N.ltb_lt; lia).
@@ -390,8 +389,8 @@ Corollary read_tlv_prefix_inj a1 t1 a2 t2 g1 h1 c1 g2 h2 c2 :
 Proof.
   intros R1 R2 E.
   pose proof (read_tlv_ext _ _ _ _ _ t1 R1) as X1. pose proof (read_tlv_ext _ _ _ _ _ t2 R2) as X2.
-  rewrite E in X1. rewrite X1 in X2. inversion X2; subst. cbn in H3.
-  apply read_tlv_split in R1 as [-> _]. apply read_tlv_split in R2 as [-> _]. now rewrite !app_nil_r.
+  rewrite E in X1. rewrite X1 in X2. cbn [app] in X2. injection X2 as Eg Eh Ec Et. subst g2 h2 c2 t2.
+  apply read_tlv_split in R1 as [-> _]. apply read_tlv_split in R2 as [-> _]. split; reflexivity.
 Qed.
 
 Lemma read_tlv_shorter s tag h c rest : read_tlv s = Some (tag, h, c, rest) -> (length rest + 2 <= length s)%nat.
@@ -513,6 +512,17 @@ Local Ltac norm_consts :=
   change (256 ^ 6)%Z with 281474976710656%Z; change (256 ^ 7)%Z with 72057594037927936%Z;
   change (256 ^ 8)%Z with 18446744073709551616%Z.
 
+Local Ltac fix_consts :=
+  repeat match goal with
+  | H : context [(128 * 256 ^ ?e)%Z] |- _ =>
+      let c := eval vm_compute in (128 * 256 ^ e)%Z in change (128 * 256 ^ e)%Z with c in H
+  end.
+Local Ltac fix_consts_goal :=
+  repeat match goal with
+  | |- context [(128 * 256 ^ ?e)%Z] =>
+      let c := eval vm_compute in (128 * 256 ^ e)%Z in change (128 * 256 ^ e)%Z with c
+  end.
+
 (* [n] bytes hold v, and n is minimal: the decoder returns v *)
 Lemma int64_dec_twos n v : (1 <= n <= 8)%nat ->
   (- (128 * 256 ^ (Z.of_nat n - 1)) <= v < 128 * 256 ^ (Z.of_nat n - 1))%Z ->
@@ -520,11 +530,11 @@ Lemma int64_dec_twos n v : (1 <= n <= 8)%nat ->
   int64_dec (twos n v) = Some v.
 Proof.
   intros Hn Hr Hmin. unfold int64_dec. cbv zeta. rewrite be_dec_twos, twos_length.
-  assert (Hc : n = 1 \/ n = 2 \/ n = 3 \/ n = 4 \/ n = 5 \/ n = 6 \/ n = 7 \/ n = 8)%nat by lia.
+  assert (Hc : (n = 1 \/ n = 2 \/ n = 3 \/ n = 4 \/ n = 5 \/ n = 6 \/ n = 7 \/ n = 8)%nat) by lia.
   destruct Hc as [->|[->|[->|[->|[->|[->|[->| ->]]]]]]];
     (destruct Hmin as [Hmin|Hmin]; [try discriminate Hmin|]);
     unfold twos; cbn [be_enc check_integer Nat.leb andb]; norm_consts;
-    cbn [Z.sub Z.pos_sub Z.opp Z.of_nat Pos.of_succ_nat Pos.succ Z.pow Z.pow_pos Pos.iter Z.mul Pos.mul Pos.add Pos.pred_double Z.succ_double Z.pred_double Z.double] in Hr, Hmin.
+    fix_consts.
   all: set (u := Z.to_N (v mod _)%Z).
   all: try match goal with
        | |- context [negb ((?a =? 0) && (?b <? 128) || (?a =? 255) && (128 <=? ?b))] =>
@@ -550,8 +560,7 @@ Proof.
       |apply orb_false_iff in E; rewrite Z.leb_gt, Z.ltb_ge in E]
   end.
   all: apply int64_dec_twos; [lia| |]; norm_consts;
-       cbn [Z.sub Z.pos_sub Z.opp Z.of_nat Pos.of_succ_nat Pos.succ Z.pow Z.pow_pos Pos.iter Z.mul Pos.mul Pos.add Pos.pred_double Z.succ_double Z.pred_double Z.double];
-       try lia.
+       fix_consts_goal; try lia.
   all: try (left; reflexivity).
   all: try (right; lia).
 Qed.
